@@ -76,7 +76,8 @@ def run_cases(cases, flavour='c', timeout=20, judge_args=None, keep_obs=True, ha
         # `<flavour>-plain`: the same harness without sanitizers (gcc -O1): a read of uninitialised
         # stack memory keeps the pattern the harness fills the stack with (the frame layout of an
         # ASan build hides it)
-        exe = harness_exe or (build.build_harness(flavour[:-6], sanitize=False) if flavour.endswith('-plain') else build.build_harness(flavour))
+        exe = harness_exe or (build.build_harness(flavour[:-6], sanitize=False) if flavour.endswith('-plain') else
+                              build.build_harness(flavour[:-3], rename_default_alloc=True) if flavour.endswith('-fi') else build.build_harness(flavour))
     res = Result()
     workdir = tempfile.mkdtemp(prefix='run-', dir=build.WORK)
     try:
